@@ -522,3 +522,32 @@ JRACE = Harness(
     stubs=STUBS_COMMON,
 )
 HARNESSES.append(JRACE)
+
+
+# ------------------------------------------------------------------------------ T-closing-look (scenario shared with C02 K-closing)
+def _tcl_fn(a, tier):
+    from . import c02 as _c02
+
+    return _c02._closing(a, tier, "C03")
+
+
+def _tcl_params(tier):
+    from . import c02 as _c02
+
+    return _c02.closing_params(tier)
+
+
+TCL = Harness(
+    prop="C03",
+    name="T-closing-look",
+    fn=guard(_tcl_fn),
+    params=_tcl_params,
+    cube=lambda tier: 0,
+    title="a pair resolved through a factory while the context was open is looked up again from its teardown callbacks",
+    bound_text=lambda tier: "as C02 K-closing: sync / async factory used once while open; during teardown (callback / @context_teardown) the pair is looked up through get_resource, "
+    "get_resource_nowait and get_resources",
+    oracle="every lookup made during teardown returns the object the first lookup returned ('until the context is closed')",
+    outside="-",
+    stubs=STUBS_COMMON,
+)
+HARNESSES.append(TCL)
